@@ -153,6 +153,9 @@ from . import rules_axis, rules_table  # noqa: E402
 def ax(funcs, kinds=None):
     def rule(repo, col):
         rules_axis.emit(col, repo, funcs=set(funcs), kinds=kinds)
+        if kinds is None:
+            from . import rules_generic
+            rules_generic.rule_ax_default(repo, col, funcs)
     rule.__name__ = 'axis_sinks'
     return rule
 
@@ -350,6 +353,72 @@ PROPS['C18']['rules'] += [X.rule_pad_agreement]
 PROPS['C11']['rules'] += [X.rule_one_to_many_count]
 for _k, _v in rules_extra.RULE_TEXT.items():
     ALL_TEXT.setdefault(_k, ' '.join((_v or '').split()))
+
+# ---- scope-wide rules (second round of independent seeded changes) ---------
+from . import rules_generic as G  # noqa: E402
+_T, _P, _U = 'biom/table.py', 'biom/parse.py', 'biom/util.py'
+SCOPE = {
+    'C01': [(_T, 'Table.to_hdf5'), (_T, 'Table.from_hdf5'),
+            (_T, 'general_formatter'), (_T, 'vlen_list_of_str_formatter'),
+            (_T, 'general_parser'), (_T, 'vlen_list_of_str_parser'),
+            (_P, 'load_table'), (_P, 'parse_biom_table')],
+    'C02': [(_T, 'Table.to_json'), (_T, 'Table.from_json'),
+            (_T, 'NpEncoder.default'), (_P, 'parse_biom_table')],
+    'C03': [(_T, 'Table.delimited_self'), (_T, 'Table.to_tsv'),
+            (_T, 'Table._extract_data_from_tsv'), (_T, 'Table.from_tsv')],
+    'C04': [(_T, 'Table.to_hdf5')],
+    'C05': [(_T, 'Table.__init__'), (_T, 'Table.filter'),
+            (_T, 'Table.update_ids')],
+    'C06': [(_T, 'Table.sort_order'), (_T, 'Table.sort'),
+            (_T, 'Table.align_to'), (_T, 'Table.transpose'),
+            (_T, 'Table.update_ids'), (_T, 'Table.copy')],
+    'C08': [(_T, 'Table.filter'), (_T, 'Table.remove_empty'),
+            (_T, 'Table.head')],
+    'C09': [(_T, 'Table.merge'), (_T, 'Table._fast_merge')],
+    'C10': [(_T, 'Table.concat'), ('biom/__init__.py', 'concat')],
+    'C11': [(_T, 'Table.partition'), (_T, 'Table.collapse')],
+    'C12': [(_T, 'Table.subsample')],
+    'C13': [(_T, 'Table.transform'), (_T, 'Table.norm'), (_T, 'Table.pa'),
+            (_T, 'Table.rankdata')],
+    'C14': [(_T, 'Table.from_hdf5'), (_P, 'parse_biom_table'),
+            ('biom/cli/table_subsetter.py', '_subset_table')],
+    'C16': [(_T, 'Table.__eq__'), (_T, 'Table.__ne__'),
+            (_T, 'Table.descriptive_equality'),
+            (_T, 'Table._data_equality')],
+    'C17': [(_T, 'Table._to_sparse'), (_T, 'Table.__init__'),
+            (_T, 'Table.from_adjacency'), (_P, 'parse_uc')],
+    'C19': [(_T, 'Table.sum'), (_T, 'Table.min'), (_T, 'Table.max'),
+            (_T, 'Table.nonzero_counts'), (_T, 'Table.reduce'),
+            (_T, 'Table.get_table_density'), (_T, 'Table.nonzero'),
+            (_U, 'compute_counts_per_sample_stats')],
+}
+for _pid, _roots in SCOPE.items():
+    PROPS[_pid]['rules'].append(partial(G.rule_numloss, roots=_roots))
+for _pid in ('C01', 'C08', 'C14'):
+    PROPS[_pid]['rules'].append(partial(G.rule_emptiness_scan,
+                                        roots=SCOPE[_pid]))
+for _pid in ('C15', 'C17', 'C02'):
+    PROPS[_pid]['rules'].append(G.rule_shape_forwarded)
+for _pid in ('C04', 'C01', 'C15'):
+    PROPS[_pid]['rules'].append(G.rule_field_const)
+from . import rules_round2 as R2  # noqa: E402
+PROPS['C01']['rules'] += [R2.rule_pathname, R2.rule_text_payload]
+PROPS['C02']['rules'] += [R2.rule_date_inverse]
+PROPS['C03']['rules'] += [R2.rule_processor_keeps_all]
+PROPS['C05']['rules'] += [R2.rule_filter_passthrough]
+PROPS['C08']['rules'] += [R2.rule_filter_passthrough]
+PROPS['C09']['rules'] += [R2.rule_fast_merge_operands]
+PROPS['C11']['rules'] += [R2.rule_acc_dtype]
+PROPS['C12']['rules'] += [R2.rule_byid_branch]
+PROPS['C16']['rules'] += [R2.rule_eq_aggregates]
+PROPS['C17']['rules'] += [R2.rule_uc_kinds, R2.rule_adjacency_all_records]
+PROPS['C18']['rules'] += [R2.rule_converter_every_field]
+PROPS['C20']['rules'] += [rules_table.rule_or_errcheck]
+for _p in PROPS.values():
+    for _k, _v in R2.RULE_TEXT.items():
+        _p['rule_texts'].setdefault(_k, ' '.join(_v.split()))
+    for _k, _v in G.RULE_TEXT.items():
+        _p['rule_texts'].setdefault(_k, ' '.join(_v.split()))
 
 # vacuity minima tolerate refactorings that merge or split obligations: they
 # only have to notice that the analysis lost sight of the code altogether
